@@ -194,3 +194,31 @@ Proof.
   - vm_compute. reflexivity.
   - vm_compute. reflexivity.
 Qed.
+
+(* the hypotheses of C08_orbit_stationary_alldepth / C08_periodic_orbit_stationary / C08_transition_selected_in_slice are
+   satisfiable: a labelling with period 3 (Hamiltonians 0, -1, -3 repeated), finite slice variable -2 (two of three
+   positions in the slice, none divergent), a U-turn predicate depending on the end points modulo 3; the folded column sum
+   at class 0 for max_depth 1 is computed to be 1 *)
+Example C08_alldepth_example :
+  let H := fun i : Z => if (i mod 3 =? 0) then Fin 0 else if (i mod 3 =? 1) then Fin (-1 # 1) else Fin (-3 # 1) in
+  let U := fun a b : Z => negb ((a mod 3 =? 0) && (b mod 3 =? 2)) in
+  (forall i, H (i + Z.of_nat 3) = H i) /\ (forall a b, U (a + Z.of_nat 3) (b + Z.of_nat 3) = U a b) /\
+  (forall i, finite_logd Z H i = true) /\
+  (forall i, sl H (Fin (-2 # 1)) i = true -> nd H (Fin (-2 # 1)) i = true) /\
+  sl H (Fin (-2 # 1)) 0 = true /\ in_slice Z H (Fin (-2 # 1)) 0 = true /\
+  (qs (fun i => if sl H (Fin (-2 # 1)) i
+                then dist (otransition H H U (fun _ => 0%Q) (Fin (-2 # 1)) true 1 i)
+                          (fun tp => if ((p_cur tp - 0) mod Z.of_nat 3 =? 0) then 1 else 0)
+                else 0) (zr 0 3) == 1)%Q.
+Proof.
+  cbv zeta. split; [|split; [|split; [|split; [|split; [|split]]]]].
+  - intros i. replace ((i + Z.of_nat 3) mod 3) with (i mod 3); [reflexivity|].
+    change (Z.of_nat 3) with (1 * 3). rewrite Z.mod_add; lia.
+  - intros a b. replace ((a + Z.of_nat 3) mod 3) with (a mod 3) by (change (Z.of_nat 3) with (1 * 3); rewrite Z.mod_add; lia).
+    replace ((b + Z.of_nat 3) mod 3) with (b mod 3) by (change (Z.of_nat 3) with (1 * 3); rewrite Z.mod_add; lia). reflexivity.
+  - intros i. unfold finite_logd. destruct (i mod 3 =? 0); [reflexivity|]. destruct (i mod 3 =? 1); reflexivity.
+  - intros i. apply sl_nd_fin.
+  - reflexivity.
+  - reflexivity.
+  - vm_compute. reflexivity.
+Qed.
